@@ -151,7 +151,7 @@ func (Engine) Gen(seed uint64, idx int, tier string) interface{} {
 	}
 	id := 0
 	closes := 0
-	kinds := []string{"run", "run", "run", "modinit", "modsrc", "regmod", "resolve", "runfile", "close", "close"}
+	kinds := []string{"run", "run", "run", "modinit", "modsrc", "regmod", "resolve", "runfile", "close", "close", "modsrc-bad", "modbuf-bad", "modbuf-notcode"}
 	nests := []string{"", "", "cb:0", "cb:1", "cb:2", "src:srca", "src:srcb", "exec", "raise", "badsrc", "src:nosuch"}
 	for t := 0; t < nt; t++ {
 		var ts TaskSpec
@@ -480,6 +480,12 @@ func (e Engine) Exec(sci interface{}, opt harness.ExecOpts) *harness.Outcome {
 						_, err = ctx.ModuleInit(&py.ModuleImpl{Info: py.ModuleInfo{Name: fmt.Sprintf("mi%d", op.ID)}, Code: codes[op.ID]})
 					case "modsrc":
 						_, err = ctx.ModuleInit(&py.ModuleImpl{Info: py.ModuleInfo{Name: fmt.Sprintf("ms%d", op.ID)}, CodeSrc: srcs[op.ID]})
+					case "modsrc-bad":
+						_, err = ctx.ModuleInit(&py.ModuleImpl{Info: py.ModuleInfo{Name: fmt.Sprintf("mb%d", op.ID)}, CodeSrc: "def (:\n"})
+					case "modbuf-bad":
+						_, err = ctx.ModuleInit(&py.ModuleImpl{Info: py.ModuleInfo{Name: fmt.Sprintf("mb%d", op.ID)}, CodeBuf: []byte{0xff, 0x00, 0x01}})
+					case "modbuf-notcode":
+						_, err = ctx.ModuleInit(&py.ModuleImpl{Info: py.ModuleInfo{Name: fmt.Sprintf("mb%d", op.ID)}, CodeBuf: []byte{'N'}})
 					case "regmod":
 						_, err = ctx.ModuleInit(py.GetModuleImpl("simcb" + op.Path))
 					case "resolve":
